@@ -102,6 +102,53 @@ impl C04 {
                 ctx.check(dd == lxp, "lax::dagger/involution/value/pending", || json!({"input": show_lax(&pl)}));
             }
         }
+        // lax contravariance and distribution over tensor: right operand with pending pairs, left without
+        {
+            let mut pg = g.to_lax();
+            let n = pg.w.len();
+            if n > 0 {
+                for _ in 0..r.range(1, 3) {
+                    let a = r.below(n);
+                    let c: Vec<usize> = (0..n).filter(|&i| pg.w[i] == pg.w[a]).collect();
+                    pg.q.push((a, *r.pick(&c)));
+                }
+            }
+            let (xf, xg) = (to_lax(&f.to_lax()), to_lax(&pg));
+            let inp = || json!({"f": show(&f), "g": show_lax(&pg)});
+            let strictify = |ctx: &mut Ctx, api: &str, x: Option<L>| -> Option<P> {
+                let x = x?;
+                let pl = walk_lax(ctx, api, "lax", &x, &inp)?;
+                match pl.strict() {
+                    Ok((p, _)) => Some(p),
+                    Err(_) => {
+                        ctx.check(false, &format!("{}/quotientable/value/lax", api), || json!({"input": inp(), "observed": show_lax(&pl)}));
+                        None
+                    }
+                }
+            };
+            let lhs = lib(ctx, "lax::(f;g)+", "lax", &inp, || Arrow::compose(&xf, &xg).map(|h| Spider::dagger(&h))).flatten();
+            let rhs = lib(ctx, "lax::g+;f+", "lax", &inp, || Arrow::compose(&Spider::dagger(&xg), &Spider::dagger(&xf))).flatten();
+            ctx.count("law:lax-dagger-reverses-composition");
+            let (a, b) = (strictify(ctx, "lax::(f;g)+", lhs), strictify(ctx, "lax::g+;f+", rhs));
+            if let (Some(a), Some(b)) = (a, b) {
+                expect_iso(ctx, "lax::dagger", "reverses-composition", "lax", &a, &b, &inp);
+                // and both agree with the model: dagger of the gluing of the quotiented operands
+                if let Ok((gs, _)) = pg.strict() {
+                    if let Some(m) = f.compose(&gs) {
+                        expect_iso(ctx, "lax::dagger", "reverses-composition-model", "lax", &a, &m.dagger(), &inp);
+                    }
+                }
+            }
+            let lhs = lib(ctx, "lax::(f|g)+", "lax", &inp, || Spider::dagger(&xf.tensor(&xg)));
+            let rhs = lib(ctx, "lax::f+|g+", "lax", &inp, || Spider::dagger(&xf).tensor(&Spider::dagger(&xg)));
+            let (a, b) = (strictify(ctx, "lax::(f|g)+", lhs), strictify(ctx, "lax::f+|g+", rhs));
+            if let (Some(a), Some(b)) = (a, b) {
+                expect_iso(ctx, "lax::dagger", "distributes-over-tensor", "lax", &a, &b, &inp);
+                if let Ok((gs, _)) = pg.strict() {
+                    expect_iso(ctx, "lax::dagger", "distributes-over-tensor-model", "lax", &a, &f.tensor(&gs).dagger(), &inp);
+                }
+            }
+        }
         let lxf = to_lax(&f.to_lax());
         if let Some(d) = lib(ctx, "lax::dagger", "any", &input, || Spider::dagger(&lxf)) {
             ctx.count("wf:walked");
@@ -304,6 +351,7 @@ impl Monitor for C04 {
             ("api:lax::spider", 100),
             ("api:lax::dagger", 100),
             ("class:lax_dagger_with_pending_unifications", 50),
+            ("law:lax-dagger-reverses-composition", 100),
         ]
     }
     fn run_case(&self, idx: u64, r: &mut Rng, ctx: &mut Ctx) {
